@@ -507,13 +507,15 @@ PROPS['C19'] = dict(
 PROPS['C20'] = dict(
     sub='c20',
     quick=[S('mon'), S('mondbg', 'scale_pct=50'), S('static', 'scale_pct=25', 'fixed_stride=7'), S('asan', 'scale_pct=25', 'fixed_stride=7'), S('tsan', 'scale_pct=10', 'fixed_stride=97', shards=8),
-           S('vg', 'programs=12', 'steps=80', 'fixed_stride=997', shards=16, timeout=1500), S('miri', 'programs=2', 'small', shards=16, miri_seeds='0..2', timeout=1500)],
+           S('vg', 'programs=12', 'steps=80', 'fixed_stride=997', shards=16, timeout=1500), S('miri', 'programs=2', 'small', shards=16, miri_seeds='0..2', timeout=1500),
+           S('miri32', 'programs=1', 'small', 'fixed_stride=499', shards=16, timeout=1500)],
     thorough=[S('mon'), S('mondbg'), S('static', 'scale_pct=25'), S('asan', 'scale_pct=25'), S('tsan', 'scale_pct=10', 'fixed_stride=7'),
-              S('vg', 'programs=150', 'steps=120', 'fixed_stride=97', shards=16, timeout=14000), S('miri', 'programs=12', 'small', shards=16, miri_seeds='0..8', timeout=14000)],
+              S('vg', 'programs=150', 'steps=120', 'fixed_stride=97', shards=16, timeout=14000), S('miri', 'programs=12', 'small', shards=16, miri_seeds='0..8', timeout=14000),
+              S('miri32', 'programs=6', 'small', 'fixed_stride=13', shards=16, timeout=14000)],
     rule='all 187,199 fixed offsets: TimeZone::fixed -> to_fixed_offset / to_offset at 4 instants / clone == original / != neighbour / tag and no reference count (hook H3); '
          'seeded programs of up to 200 steps (60 under Miri) over a pool of 12 slots and the kinds UTC, unknown, fixed(o), POSIX, TZif from bytes, database lookup, static tz::get! ("static" build): new, clone into {plain, Box, Vec of 1..3, Zoned}, drop, ==, derived Zoned arithmetic, sharing with 2..4 scoped threads that clone+query+drop plus one that takes a clone by value and returns it; '
          'after every step: every live handle answers exactly as when its zone was created (4 offsets, name, abbreviation, tag), Arc strong count (H3) == model count for every heap zone, allocator monitor (feature allocmon: footprint of every heap zone; premature free, double free, not freed after last drop), equality reflexive/symmetric/clone-stable and equal exactly for the same value. '
-         'The same workload without the allocator monitor under AddressSanitizer+LeakSanitizer, ThreadSanitizer, valgrind memcheck (leak-check=full) and Miri. distinct_nontrivial = distinct programs',
+         'The same workload without the allocator monitor under AddressSanitizer+LeakSanitizer, ThreadSanitizer, valgrind memcheck (leak-check=full), Miri, and Miri for a 32-bit target (i686: the tagged pointer packs the fixed offset into pointer bits). distinct_nontrivial = distinct programs',
     floors={'quick': {'fixed_offsets': 187199, 'programs': 5000, 'heap_zones_created': 50000, 'footprint_blocks_tracked': 100000},
             'thorough': {'fixed_offsets': 187199, 'programs': 400000, 'heap_zones_created': 4000000, 'footprint_blocks_tracked': 1000000}},
     assumptions=COMMON_ASSUME + ['"answers correctly" for a live handle = answers exactly as recorded when its zone was created (C03/C04 own the correctness of the answers themselves)',
@@ -521,6 +523,6 @@ PROPS['C20'] = dict(
                                  'red-zone tools miss non-adjacent overflows and reuse of freed memory that lands in live memory; the allocator monitor and Miri cover those for this small unsafe surface'],
     level_text='Program-model monitoring of the real TimeZone representation: seeded handle programs checked after every step against recorded answers, the Arc strong count (hook) and an allocator monitor that knows each zone\'s heap footprint; all fixed offsets exhaustively; the same programs under ASan/LSan, TSan, valgrind and Miri.',
     level_note='Trusted base: the program model and the allocator monitor in harness/src/{c20,allocmon}.rs, hook H3 in /repo (cfg jiff_verif). Programs are sampled, the fixed-offset space is enumerated.',
-    technique='runtime monitoring of seeded handle programs: answer/refcount/allocator-footprint monitors after every step (hooks + counting global allocator), exhaustive fixed offsets, AddressSanitizer+LeakSanitizer, ThreadSanitizer, valgrind memcheck, Miri',
+    technique='runtime monitoring of seeded handle programs: answer/refcount/allocator-footprint monitors after every step (hooks + counting global allocator), exhaustive fixed offsets, AddressSanitizer+LeakSanitizer, ThreadSanitizer, valgrind memcheck, Miri (64-bit and i686 targets)',
     design_ref='DESIGN.md section 4, C20',
 )
